@@ -221,6 +221,8 @@ func uniqueTarget(ref *Table, cols []string) bool {
 // Edit applies one random elementary edit to s and returns its kind ("" when it was not applicable).
 // protect names columns that must never be touched (the C05 key column).
 func Edit(t *rapid.T, s *Schema, o Opts, protect map[string]bool) string {
+	wordOnly = o.WordNames
+	defer func() { wordOnly = false }()
 	if len(s.Tables) == 0 {
 		return editAddTable(t, s, o)
 	}
